@@ -8,14 +8,14 @@ pattern denotes a Python list (plus a flag "the stream ends here"), every class 
 Correspondence: the same expressions are run on the Coq model (Pat/Step.v through Pat/Script.v, compared inside
 Coq) when every class of the expression is modelled; PEuclidean._euclidean and the PArpeggiator orders are
 compared exhaustively with their Coq transcriptions (Pat/Ref.v)."""
-import operator
+import operator, re
 from fractions import Fraction
 from pat_common import *
 
 PROP = "C10"
 META = {
  "engine": "P-pattern-algebra",
- "text": "Coq theorems (Props/C10.v, closed under the global context) prove on the executable model of the pattern classes (Pat/Step.v) that each class's outputs under repeated next() equal an independently written closed-form list definition (Pat/Ref.v) for all arguments of the documented domain and arbitrary operand objects (induction, not sampling), that the reference interpreter ref_eval on expressions is compositional (outputs (init e) = ref_eval e by induction on e, infinite operands through every finite prefix), that the transcription of PEuclidean._euclidean gives length n, exactly k onsets and window-evenness for all k <= n <= 64 (complete enumeration, bound in the statement) and that every arpeggiator order is the documented arrangement of the sorted chord. Every run ties model and repository together: generated expressions (every class over its argument domain, nestings to depth 3) are executed on the repository, judged by an independent list-based reference interpreter written from the documentation, and compared with the Coq model inside Coq.",
+ "text": "Coq theorems (Props/C10.v, closed under the global context) prove on the executable model of the pattern classes (Pat/Step.v) that each class's outputs under repeated next() equal an independently written closed-form list definition (Pat/Ref.v) for all arguments of the documented domain and arbitrary operand objects (induction, not sampling), that the reference interpreter ref_eval on expressions is compositional (outputs (init e) = ref_eval e by induction on e, infinite operands through every finite prefix), that the transcription of PEuclidean._euclidean gives length n, exactly k onsets and window-evenness for all k <= n <= 64 (complete enumeration, bound in the statement) and that every arpeggiator order is the documented arrangement of the sorted chord. Every run ties model and repository together: generated expressions (every class over its argument domain, nestings to depth 3) are executed on the repository, judged by an independent list-based reference interpreter written from the documentation, and compared with the Coq model inside Coq. What an object produces is a function of its own arguments only: for every session of new/next/reset operations on any number of objects the i-th object behaves as the same expression built and driven alone (C10_session_isolation, C10_arp_session_isolation; Pat/Session.v), the looping arpeggiator arrangements are the documented ones and repeat for ever (C10_arp_loop_arrangement, C10_arp_loop_periodic); the repository is held to it by sessions of 1-4 programs of the same class with nearly the same arguments, constructed / stepped / reset in interleaved order inside one interpreter (one forked child per session), each judged by its own reference list.",
  "note": "Trusted: Coq kernel + VM; the harness; Python's own arithmetic as the reference for single float operations. Classes that call libm or chain several float roundings (PScaleLinExp, PMidiNoteToFrequency, PTri, PSaw, PInterpolate, PScaleLinLin, PNormalise on floats) are oracle-only with the documented formula mirrored operation by operation in Python; nothing is proved about them. PCreep, PPermut, PInterpolate, PScalar, PNormalise, PDegree, PLSystem, PMap with user functions are outside the deep embedding: oracle only.",
 }
 
@@ -452,11 +452,18 @@ def ref(x):
         return S([v for q in perms(block) for v in q], True)
     if c == "PArpeggiator":
         notes, ty = sorted(a[0]), (a[1] if len(a) > 1 else 0)
-        if len(a) > 2 and a[2]:
-            raise CannotJudge("looping arpeggiator")
         if len(notes) < ARP_MIN.get(ty, 1):
             raise CannotJudge("chord too small for this order")
         order = diverge_order(len(notes)) if ty == 3 else arp_order(len(notes), ty)
+        if len(a) > 2 and a[2]:
+            # loop=True: the arrangement round and round.  UPDOWN / DOWNUP leave out the last entry ("to prevent double
+            # notes" where the cycles join, chords of more than one note), ROOTBOUNCE the last three ("for a smooth loop")
+            if ty in (6, 7) and len(notes) > 1:
+                order = order[:-1]
+            elif ty == 10:
+                order = order[:-3]
+            cyc = [notes[i] for i in order]
+            return S((cyc * (H // len(cyc) + 1))[:H], False)
         return S([notes[i] for i in order], True)
     if c == "PEuclidean":
         k, n = a[0], a[1]
@@ -1157,6 +1164,9 @@ def check(run):
     check_euclid(run)
     check_arp(run)
 
+    # 3b. sessions: several objects of one class alive in one process
+    session_cases = check_sessions(run, g)
+
     # 4. the model, inside Coq
     mc = [c for c in cases if modelled(c.expr) and not c.status]
     if not thorough:
@@ -1170,7 +1180,8 @@ def check(run):
     run_impl(run, extra)
     for c in extra:
         run.count(); run.dist("stream.registry")
-    run_model(run, mc + extra)
+    run_model(run, mc + extra + session_cases)
+    session_model_verdicts(run, session_cases)
     for c in mc + extra:
         if c.verdict == "discard":
             run.discard("model: " + (c.status or "?").split(":")[0])
@@ -1192,6 +1203,257 @@ def check(run):
     run.sample({"expr": src(cases[-1].expr), "observed": cases[-1].obs_pretty()[:12]})
     run.cov["rule"] = ("one case = one expression + %d calls of next(); judged = the reference interpreter has a definition for every class "
                        "and argument form of the expression; non-trivial = at least two values were produced" % N_NEXT)
+
+
+# ================================================================================================
+# SESSIONS: 1-4 programs of the same class with different (mostly: nearly the same) arguments, constructed,
+# stepped and reset in interleaved order inside ONE interpreter (a forked child per session: nothing is carried
+# over from an earlier session, so a failing session replays on its own).  Every program is judged by ITS OWN
+# reference list (the oracle `ref` of its own expression): what an object produces is a function of its own
+# arguments, whatever else is alive in the process (theorems C10_session_isolation / C10_arp_session_isolation).
+# The arpeggiator takes part with its `loop` argument (all 9 orders x chord sizes 1..8 alone, and mixed sessions
+# of looping / one-shot arpeggiators over chords of the same size), compared with Pat/Session.v inside Coq.
+# ================================================================================================
+S_NEXT = 20
+SESSION_HEADER = """From Isobar Require Import Base.Prelude Pat.Val Pat.Ref Pat.Session.
+Open Scope Z_scope.
+"""
+
+
+def perturb(rng, g, x, depth):
+    """an argument that is nearly the same: numbers move a little, flags flip, lists change one entry, patterns are redrawn"""
+    if isinstance(x, bool):
+        return not x
+    if isinstance(x, int):
+        return x + rng.choice([-1, 1, 1, 2])
+    if isinstance(x, float):
+        return x + rng.choice([-0.5, 0.5, 1.0])
+    if isinstance(x, list) and x and not any(isinstance(v, (E, Raw)) for v in x):
+        y = list(x)
+        k = rng.randrange(len(y))
+        if rng.random() < 0.5 and len(y) > 1:
+            y[k], y[k - 1] = y[k - 1], y[k]
+        else:
+            y[k] = perturb(rng, g, y[k], depth) if isinstance(y[k], (int, float)) and not isinstance(y[k], bool) else y[k]
+        return y
+    if isinstance(x, E):
+        return g.gen(max(0, depth - 1), g.finite(x), "any")
+    return x
+
+
+def near_duplicate(rng, g, e, depth):
+    """the same constructor call with ONE argument changed (a cache keyed on the other arguments would confuse the two)"""
+    if not isinstance(e, E) or not e.args:
+        return e
+    args = list(e.args)
+    k = rng.randrange(len(args))
+    args[k] = perturb(rng, g, args[k], depth)
+    return E(e.cls, *args)
+
+
+def arp_program(rng, ty, n, loop):
+    notes = rng.sample(range(-12, 30), n)
+    if rng.random() < 0.15 and n > 1:
+        notes[1] = notes[0]
+    return E("PArpeggiator", notes, ty, True) if loop else (E("PArpeggiator", notes, ty) if rng.random() < 0.5 else E("PArpeggiator", notes, ty, False))
+
+
+def interleave(rng, seqs):
+    """merge the per-program operation lists, alternating between the programs in bursts of 1-3 operations"""
+    ptr = [0] * len(seqs)
+    out, cur = [], 0
+    while any(ptr[i] < len(seqs[i]) for i in range(len(seqs))):
+        live = [i for i in range(len(seqs)) if ptr[i] < len(seqs[i])]
+        cur = rng.choice([i for i in live if i != cur] or live)
+        for _ in range(rng.choice([1, 1, 1, 2, 3])):
+            if ptr[cur] < len(seqs[cur]):
+                out.append([seqs[cur][ptr[cur]], cur]); ptr[cur] += 1
+    return out
+
+
+def session_ops(rng, resettable):
+    ops = ["new"] + ["next"] * rng.randint(6, S_NEXT)
+    if resettable and rng.random() < 0.4:
+        ops.insert(rng.randint(1, len(ops)), "reset")
+        ops += ["next"] * rng.randint(2, 6)
+    return ops
+
+
+def judge_program(expr, ops, obs):
+    """None | deviation of one program of a session from its own reference list; raises CannotJudge"""
+    s = ref(expr)
+    pos, stopped = 0, False
+    for k, (op, o) in enumerate(zip(ops, obs)):
+        got = obs_canon(o)
+        if op == "new":
+            if got != "None":
+                return {"op": k, "what": "constructor", "expected": "the constructor succeeds", "observed": got}
+            continue
+        if op == "reset":
+            if got != "None":
+                return {"op": k, "what": "reset()", "expected": "reset() returns None", "observed": got}
+            pos, stopped = 0, False
+            continue
+        if stopped:
+            continue
+        if pos < len(s.v):
+            want = canon(s.v[pos]); pos += 1
+        elif s.done:
+            want, stopped = "StopIteration", True
+        else:
+            break
+        if got != want:
+            return {"op": k, "what": "output %d since construction / the last reset()" % (pos - 1 if want != "StopIteration" else pos),
+                    "expected": want, "observed": got}
+    return None
+
+
+def session_snippet(sess):
+    lines = ["import isobar as iso", "FN = {'sq': lambda v: None if v is None else v * v, 'addc': lambda v, c: None if v is None else v + c, 'neg': lambda v: None if v is None else -v}"]
+    for op, i in sess["sched"]:
+        if op == "new":
+            lines.append("p%d = %s" % (i, sess["programs"][i]))
+        elif op == "next":
+            lines.append("print('p%d', next(p%d))" % (i, i))
+        else:
+            lines.append("p%d.reset()" % i)
+    return "\n".join(lines)
+
+
+def run_sessions(run, sessions, shards=12):
+    parts = [sessions[i::shards] for i in range(shards) if sessions[i::shards]]
+    payloads = [{"sessions": [{"programs": s["programs"], "sched": s["sched"]} for s in part]} for part in parts]
+    for part, out in zip(parts, run.impl_parallel("c10_impl", payloads)):
+        for s, r in zip(part, out["sessions"]):
+            s["obs"], s["status"] = r["obs"], r.get("status")
+
+
+def check_sessions(run, g):
+    rng = run.rng
+    thorough = run.tier == "thorough"
+    sessions = []
+
+    def add(exprs, tag, resettable):
+        seqs = [session_ops(rng, resettable(e)) for e in exprs]
+        sessions.append({"exprs": exprs, "programs": [src(e) for e in exprs], "ops": seqs, "sched": interleave(rng, seqs), "tag": tag})
+
+    # every order x chord size 1..8, looping, alone (the arrangement round and round)
+    for ty in sorted(ARP.values()):
+        for n in range(1, 9):
+            add([arp_program(rng, ty, n, True)], "arp-loop-alone", lambda e: True)
+    # arpeggiators of the same order over chords of the same size, looping and one-shot mixed
+    for j in range(900 if thorough else 90):
+        ty = sorted(ARP.values())[j % len(ARP)]
+        n = rng.randint(ARP_MIN.get(ty, 1), 8)
+        k = rng.choice([2, 2, 3, 4])
+        loops = [rng.random() < 0.5 for _ in range(k)]
+        if len(set(loops)) == 1 and rng.random() < 0.8:
+            loops[rng.randrange(k)] = not loops[0]
+        progs = []
+        for l in loops:
+            same = rng.random() < 0.8
+            progs.append(arp_program(rng, ty if same else rng.choice(sorted(ARP.values())), n if same or True else n, l))
+        progs = [p for p in progs if len(p.args[0]) >= ARP_MIN.get(p.args[1], 1)]
+        add(progs, "arp-mixed", lambda e: True)
+    # every class of the property: a program and 1-3 near-duplicates / other instances of the same class
+    per = 40 if thorough else 6
+    for cls in ALL_CLASSES + LEAF_CLASSES:
+        for j in range(per):
+            depth = 1 + j % 2
+            first = g.gen(depth, rng.random() < 0.5 and cls not in DocGen.ENDLESS_ONLY, "any", cls) if cls in ALL_CLASSES else g.leaf(rng.random() < 0.6, "any")
+            progs = [first]
+            for _ in range(rng.choice([1, 1, 2, 3])):
+                progs.append(near_duplicate(rng, g, first, depth) if rng.random() < 0.75 else
+                             (g.gen(depth, rng.random() < 0.5 and cls not in DocGen.ENDLESS_ONLY, "any", cls) if cls in ALL_CLASSES else g.leaf(rng.random() < 0.6, "any")))
+            add(progs, "same-class", modelled)
+    run_sessions(run, sessions)
+
+    found, mcases, aterms, aowner = [], [], [], []
+    for s in sessions:
+        run.count(); run.dist("stream.session"); run.dist("session." + s["tag"]); run.dist("session.programs.%d" % len(s["exprs"]))
+        if s.get("status"):
+            run.discard("session: impl-" + s["status"]); continue
+        judged = 0
+        for i, e in enumerate(s["exprs"]):
+            ops, obs = s["ops"][i], s["obs"][i]
+            run.dist("session.class." + e.cls)
+            try:
+                dev = judge_program(e, ops, obs)
+            except CannotJudge as ex:
+                run.discard("session oracle: " + " ".join(str(ex).split(" ")[:3])); continue
+            except (ZeroDivisionError, OverflowError, TypeError, IndexError, KeyError, ValueError) as ex:
+                run.discard("session oracle: reference raised %s" % type(ex).__name__); continue
+            judged += 1
+            run.cov["oracle_evaluations"] += len(obs)
+            if dev is not None:
+                found.append((len(s["exprs"]), len(s["sched"]), len(found), s, i, dev))
+                continue
+            if len(obs) != len(ops):
+                continue
+            if e.cls == "PArpeggiator":
+                ty = e.args[1]
+                loop = len(e.args) > 2 and bool(e.args[2])
+                lops = lst(["LNext" if o == "next" else "LReset" for o in ops[1:]])
+                try:
+                    aterms.append("arp_check (%d, %s, %s) %s %s" % (ty, zlist(e.args[0]), blit(loop), lops, lst([obs_coq(o) for o in obs])))
+                    aowner.append((s, i))
+                except Unrepresentable:
+                    pass
+            elif modelled(e):
+                c = Case(e, [("next", 0) if o == "next" else ("reset", 0) for o in ops[1:]], "session")
+                c.obs = obs
+                mcases.append(c)
+        if judged >= 2:
+            run.nontrivial("session " + repr(s["programs"]) + repr(s["sched"]))
+    # a deviation inside a session: does the program, run alone, produce its reference list?
+    reported = {}
+    for _, _, _, s, i, dev in sorted(found, key=lambda t: t[:3]):
+        e = s["exprs"][i]
+        key = json.dumps({"class": e.cls, "what": dev["what"].split(" ")[0]})
+        if key in reported or len(reported) >= 5:
+            continue
+        reported[key] = 1
+        solo = {"exprs": [e], "programs": [src(e)], "ops": [s["ops"][i]], "sched": [[o, 0] for o in s["ops"][i]], "tag": "alone"}
+        run_sessions(run, [solo], shards=1)
+        try:
+            alone = "fails alone too" if judge_program(e, solo["ops"][0], solo["obs"][0]) is not None else \
+                "passes when it is the only object in the process: state is carried from one object of the class to another"
+        except Exception:
+            alone = "could not be judged alone"
+        how = "raise" if dev["observed"].startswith("raise") else "stop" if dev["observed"] == "StopIteration" else "value"
+        run.violation({"kind": "session", "class": e.cls, "how": how, "alone": alone.split(" ")[0]}, {
+            "case": {"session": {"programs": s["programs"], "sched": s["sched"]}, "program": i},
+            "expected": "program %d = %s, operation %d of its own (%s): %s   [its own reference list, whatever else is alive in the process]" % (
+                i, s["programs"][i], dev["op"], dev["what"], dev["expected"]),
+            "observed": dev["observed"], "observed_outputs_of_the_program": [pretty_obs(o) for o in s["obs"][i]],
+            "alone": alone, "python": session_snippet(s)})
+    # ---- the model: every program of a session against its own model run alone (engine-P programs: compared together with
+    # the single-program cases by the caller, `session_model_verdicts`; arpeggiators: Pat/Session.v, here)
+    bad = run.coq_failing(SESSION_HEADER, aterms)
+    run.cov["traces_validated_against_impl"] += len(aterms) - len(bad)
+    run.cov["session_arp_model_comparisons"] = len(aterms)
+    if bad:
+        s, i = aowner[bad[0]]
+        run.violation({"kind": "correspondence", "class": "PArpeggiator", "stream": "session"}, {
+            "broken": "correspondence Pat/Session.v (arp_build / arp_next / arp_reset with `loop`) vs PArpeggiator inside a session: "
+                      "C10_arp_session_isolation / C10_arp_loop_periodic no longer speak about this code",
+            "case": {"session": {"programs": s["programs"], "sched": s["sched"]}, "program": i, "term": aterms[bad[0]]},
+            "observed": [pretty_obs(o) for o in s["obs"][i]], "python": session_snippet(s)}, found_input=False)
+    return mcases
+
+
+def session_model_verdicts(run, mcases):
+    for c in mcases:
+        if c.verdict == "agree":
+            run.cov["traces_validated_against_impl"] += 1
+        elif c.verdict == "discard":
+            run.discard("session model: " + (c.status or "?").split(":")[0])
+    for c in [c for c in mcases if c.verdict == "disagree"][:1]:
+        run.violation({"kind": "correspondence", "class": c.expr.cls, "stream": "session"}, {
+            "broken": "correspondence Pat/Step.v vs the implementation on %s inside a session of several objects: the theorem "
+                      "C10_session_isolation no longer speaks about this code" % c.expr.cls,
+            "case": {"expr": to_source(c.expr), "ops": [list(o) for o in c.ops]}, "observed": c.obs_pretty(), "model": model_trace(run, c)},
+            found_input=False)
 
 
 # ---- Euclidean rhythms -----------------------------------------------------------------------------------
@@ -1295,6 +1557,23 @@ def check_arp(run):
 
 def replay(run, doc):
     case = doc.get("case", {})
+    if "session" in case and "program" in case and not doc.get("broken"):
+        sess = dict(case["session"])
+        run_sessions(run, [sess], shards=1)
+        i = case["program"]
+        print(session_snippet(sess))
+        print("program %d observed: %s" % (i, [pretty_obs(o) for o in sess["obs"][i]]))
+        print("expected:  ", doc.get("expected"))
+        m = re.match(r"program \d+ = .*?, operation (\d+) of its own \(.*?\): (.*?)   \[", doc.get("expected", ""))
+        if m:
+            k, want = int(m.group(1)), m.group(2)
+            got = obs_canon(sess["obs"][i][k]) if k < len(sess["obs"][i]) else "nothing"
+            if got != want and not want.startswith("the constructor") and not want.startswith("reset()"):
+                print("REPLAY-FAILS: operation %d of program %d gives %s, its reference list %s" % (k, i, got, want))
+                print("VIOLATION property=C10 replay=(replayed)")
+                return 1
+        print("replay: the property holds on this session")
+        return 0
     if "expr" not in case:
         print("replay: %s" % (doc.get("python") or doc.get("broken", "?")))
         return 1 if doc.get("broken") else 2
@@ -1308,7 +1587,6 @@ def replay(run, doc):
     print("observed:  ", [pretty_obs(o) for o in c.obs][:20])
     print("expected:  ", doc.get("expected"))
     i = None
-    import re
     m = re.match(r"output (-?\d+) = (.*?)   \(", doc.get("expected", ""))
     if m:
         i, want = int(m.group(1)), m.group(2)
